@@ -370,24 +370,22 @@ Lemma jadd_ok a b :
 Proof.
   intros Ha Hb WFb.
   destruct (objnone_cases _ Hb) as [->|[kb ->]].
-  - exists a. cbn. repeat split; auto.
-    + intros p. destruct (objnone_cases _ Ha) as [->|[ka ->]]; cbn; auto.
-      symmetry. apply combine_silent0_r. apply walk_obj_not_blocked0.
-    + tauto.
-    + tauto.
+  - exists a. split; [reflexivity|]. split; [assumption|]. split; [|split; [tauto|tauto]].
+    intros p. destruct (objnone_cases _ Ha) as [->|[ka ->]]; cbn; auto.
+    symmetry. apply combine_silent0_r. apply walk_obj_not_blocked0.
   - destruct (objnone_cases _ Ha) as [->|[ka ->]].
-    + exists (Some (Obj (merge_kvs kb []))). cbn [jadd]. repeat split; auto.
+    + exists (Some (Obj (merge_kvs kb []))). split; [reflexivity|]. split; [reflexivity|].
+      split; [|split].
       * intros p. cbn [jwalk]. rewrite (walk_merge_obj (Obj kb) WFb).
         destruct p; cbn; auto. destruct (alookup k kb); cbn; auto.
         destruct (deeper (walk t p)); cbn; auto. now rewrite Nat.max_0_r.
       * intros _. apply (wfT_tmerge (Obj kb) WFb (Some (Obj []))). apply wfT_obj. split; constructor.
-      * discriminate.
-      * intros [_ H]; discriminate.
-    + exists (Some (Obj (merge_kvs kb ka))). cbn [jadd]. repeat split; auto.
+      * split; [discriminate|]. intros [_ H]; discriminate.
+    + exists (Some (Obj (merge_kvs kb ka))). split; [reflexivity|]. split; [reflexivity|].
+      split; [|split].
       * intros p. cbn [jwalk]. apply (walk_merge_obj (Obj kb) WFb).
       * intros WFa. apply (wfT_tmerge (Obj kb) WFb (Some (Obj ka))). exact WFa.
-      * discriminate.
-      * intros [H _]; discriminate.
+      * split; [discriminate|]. intros [H _]; discriminate.
 Qed.
 
 (* ------------------------------------------------------------------ remove one top-level key *)
